@@ -1,0 +1,11 @@
+//go:build !verif
+
+package gmars
+
+// Without the verif build tag the step-trace hooks of RunCycle are empty.
+
+type verifSnap struct{}
+
+func (s *reportSim) verifBefore(pc Address, w *warrior) verifSnap { return verifSnap{} }
+
+func (s *reportSim) verifAfter(snap verifSnap, pc Address, w *warrior) {}
